@@ -421,13 +421,18 @@ BUDGET = {
 EVIDENCE = {
     "level": "exploration",
     "rule": (
-        "Seeded scenarios: a table (0-40 rows; range/offset/datetime/permuted/string index; with or without z/lat/lon; time as "
-        "coordinate or as data variable for xarray), a config of 1-4 contexts (closed, half-open, empty, all-covering, absent "
-        "windows with bounds before/on/between/after row times; window values as ISO text, datetime, Timestamp or datetime64; "
-        "7 carriers) over real qartod/argo/axds tests and the recording probe, run on 2-7 front ends whose generators are "
-        "interleaved, abandoned, restarted and re-run by the seeded scheduler under a seeded PYTHONHASHSEED and dirty allocator. "
-        "Non-trivial: more than one context, or a window, or more than one front end. Distinct: distinct (digest of everything "
-        "yielded by every replica, digest of the event-kind sequence)."
+        "Seeded scenarios, each executed in its own forked process. Table: 0-40 rows (now and then 150-400); range / offset / datetime / "
+        "permuted / string index; with or without z/lat/lon and without any time axis; non-default axis column names; float64 / float32 / "
+        "int32 / int64 (beyond 2**53) columns; read-only arrays; rows out of chronological order, rows without a time (NaT), quarter-second "
+        "and nanosecond clock offsets; time as coordinate or as data variable (xarray). Config: 1-4 contexts (closed, half-open, empty, "
+        "all-covering, absent windows, bounds before/on/between/after/one second after row times, optionally with nanoseconds; GeoJSON "
+        "regions; equal contexts repeated at non-adjacent positions) over real qartod/argo/axds tests, tests on the depth column itself and "
+        "the recording probe; 7 carriers, 4 window spellings, parameters as lists / tuples / numpy scalars, Config built directly, from "
+        "calls, from a Config, or with add(). Front ends: 2-7 replicas (object- and file-backed) advanced under a seeded interleaving with "
+        "abandon/restart, up to two re-runs, a twin generator and a second config on the same stream object, Config.add() or an in-place "
+        "replacement in config.calls between two runs, user-written functions of one name and different signatures handed over as Call "
+        "objects; seeded PYTHONHASHSEED, dirty allocator, MALLOC_PERTURB_ on every fourth worker. Non-trivial: more than one context, or a "
+        "window, or more than one front end. Distinct: distinct (digest of everything yielded by every replica, digest of the event-kind sequence). "
     ),
     "real": [
         "ioos_qc.config (Config, ContextConfig, Call.run, QcConfig.run)",
